@@ -90,6 +90,9 @@ NOTES.update({
  "C20-4": ("missed at first", "LARGE (n = 17..130) arguments that violate A = A^H in one entry at even / odd / first / last positions, for every Hermitian-only entry point"),
 })
 NOTES.update({
+ "C02-5": ("caught", ""),
+ "C04-5": ("caught", ""),
+ "C16-5": ("missed at first", "the optional tol argument of the component-form triangular solver: explicit values well below the smallest diagonal modulus, keyword / positional / numpy float / zero"),
  "C01-5": ("missed at first", "argument relations: the same object as both factors, transpose / reversed views of one buffer, a result fed back as an operand, on all storage paths, with the caller's own objects"),
  "C03-5": ("caught", ""),
  "C05-5": ("missed at first", "truncation rank passed as numpy signed / unsigned integer"),
